@@ -46,9 +46,20 @@ def _est():
     return estimate_directional_distribution
 
 
-def grid(N):
+GRID_FORMS = ["0_360", "0_360", "rolled", "pm180", "unwrapped"]
+
+
+def grid(N, form="0_360", r=0):
+    """The uniform direction grid of N bins in one of its labellings: [0,360) ascending; the same grid listed from bin r
+    on (ascending but wrapping through 360 -> 0 inside the array); labelled in [-180,180); or unwrapped from 270 on."""
     step = 360.0 / N
     d = np.arange(N) * step
+    if form == "rolled":
+        d = ((np.arange(N) + (r % N)) * step) % 360.0
+    elif form == "pm180":
+        d = d - 180.0
+    elif form == "unwrapped":
+        d = d + 270.0
     return d, np.radians(d), step
 
 
@@ -106,7 +117,8 @@ def fidelity_case(draw):
                  # the neighbouring cells hold the same sea turned by whole bins, or very different, sharply peaked
                  # moments (the repository's hard cases, turned): nothing may carry over from one cell to the next
                  "others": draw(st.sampled_from(["turned", "hard"]))}
-    return {"N": N, **draw(resolved_moments(N)), "prior_solver_config": prior, "batch": batch}
+    return {"N": N, **draw(resolved_moments(N)), "prior_solver_config": prior, "batch": batch,
+            "grid_form": draw(st.sampled_from(GRID_FORMS)), "grid_roll": draw(st.integers(1, N - 1))}
 
 
 def turned(m, phi):
@@ -117,7 +129,7 @@ def turned(m, phi):
 def run_fidelity(c):
     est = _est()
     N = c["N"]
-    d, th, step = grid(N)
+    d, th, step = grid(N, c.get("grid_form", "0_360"), c.get("grid_roll", 0))
     m = np.array(c["m"])
     a = [np.array([x]) for x in m]
     out = {}
@@ -190,6 +202,7 @@ def run_fidelity(c):
         classes.append("mem_bound_asserted")
     if c.get("prior_solver_config"):
         classes.append("after_a_call_with_optional_solver_settings")
+    classes.append("direction_grid_labels_" + c.get("grid_form", "0_360"))
     if bt:
         classes.append("cell_of_a_batch_order_" + bt["order"])
         classes.append("batch_neighbours_" + bt.get("others", "turned"))
